@@ -306,9 +306,12 @@ package keyed
 // Release / RemoveKey / AddKeyRef: the unlock assertions say what happens to the lists (exactly the released
 // reference leaves its list, positions of the others are kept or the last one moves into the gap; a reference
 // that is not in its list - released before, or dropped by RemoveKey - changes nothing; other keys untouched).
-// What is left to the reader: the inner Keyed is reachable only through the wrapper, whose other methods call
-// only key-set-preserving operations (proved for Keyed), so the inner key set follows `wanted` by Keyed's own
-// SetKey / RemoveKey contracts.
+// `inner keyed` (checked syntactically over the package on every run, own.inner.KeyedRefCount.keyed): the inner
+// Keyed is a fresh object made by a constructor of this package, its pointer is used only as the receiver of
+// method calls, and only Release / RemoveKey / AddKeyRef call SetKey / RemoveKey / SyncKeys on it.
+// `own.mapprivate.KeyedRefCount.refs` (same kind of check): the refs map and the arrays of its lists do not escape.
+// What is left to the reader: the wrapper's other methods call only key-set-preserving operations (proved for
+// Keyed), so the inner key set follows `wanted` by Keyed's own SetKey / RemoveKey contracts.
 //
 //@ ghostmap rwon: ref -> bool local
 //@ ghostmap rdid: ref -> bool local
@@ -320,6 +323,7 @@ package keyed
 //@   lock mtx
 //@   guarded refs
 //@   immutable keyed
+//@   inner keyed: SetKey RemoveKey SyncKeys from (*KeyedRef).Release (*KeyedRefCount).RemoveKey (*KeyedRefCount).AddKeyRef
 //@   ghost wanted: set[any]
 //@   inv KR0[C06]: this.refs != nil && this.keyed != nil
 //@   inv KR1[C06]: forall key: any {this.refs[key]} :: in(this.refs, key) ==> len(this.refs[key]) > 0
